@@ -34,8 +34,8 @@ var KeyUniverse = [][]byte{nil, {}, []byte("a"), []byte("ab"), []byte("abc"), []
 // CollidingAbsent are never published but share a hash with a key that is.
 var CollidingAbsent = [][]byte{collisionPairs[1][1], collisionPairs[2][1]}
 
-// longKeys are published rarely: longer than a read buffer, and longer than 64 KiB (a 16-bit length would wrap).
-var longKeys = [][]byte{append([]byte("L"), pattern(299, 7)...), append([]byte("XL"), pattern(69998, 9)...)}
+// longKeys are published rarely: longer than a small buffer, than a page, and than 64 KiB (a 16-bit length would wrap).
+var longKeys = [][]byte{append([]byte("L"), pattern(299, 7)...), append([]byte("ML"), pattern(4998, 8)...), append([]byte("XL"), pattern(69998, 9)...)}
 
 var smallKeys = [][]byte{nil, []byte("a"), []byte("b"), collisionPairs[0][0], collisionPairs[0][1]}
 
